@@ -123,8 +123,13 @@ def check_state(root_i, chain, acc, seen_tables, b, seen=None):
         if canon.canon_parsing_state(parent) != canon.canon_parsing_state(indep):
             acc.violation(ID, 'es', case, dict(kind='sub_context-altered-its-parent', delta=sorted(DELTAS[chain[-1]].keys())),
                           observed=repr(canon.canon_parsing_state(parent))[:600], expected=repr(canon.canon_parsing_state(indep))[:600])
-    fields = d.get_fields()
-    f = ParsingState(**fields)
+    # expected field values computed independently of the derived objects: apply the chain to a plain
+    # dictionary, normalising through a directly constructed state at every step
+    ef = roots()[root_i][1]().get_fields()
+    for di in chain:
+        ef.update({k: (list(v) if isinstance(v, list) else v) for k, v in DELTAS[di].items()})
+        ef = ParsingState(**ef).get_fields()
+    f = ParsingState(**ef)
     kd = canon.canon_parsing_state(d)
     if seen is not None and kd in seen:
         # an equal state (same fields, same tables) was already compared with its fresh twin
